@@ -90,7 +90,8 @@ def pipeline(case, work, workers=None):
             dsets.append(make_dataset(df, p, features=["f_key", "f2"], spectrum=spec, row_group_size=cfg.get("rg")))
         w = workers or cfg.get("workers", 1)
         psms, models, scores, descs = mokapot.brew(dsets, model=make_model(case.get("est", "linear"), first_only=True), test_fdr=0.5,
-                                                   folds=3, max_workers=w, rng=1)
+                                                   folds=3, max_workers=w, rng=1,
+                                                   subset_max_train=case.get("cap"))
         out = work / "out"
         out.mkdir(exist_ok=True)
         assign_confidence(psms, max_workers=w, scores=scores, descs=descs, dest_dir=out,
@@ -157,9 +158,10 @@ _REF = {}
 
 
 def reference(case, work):
-    key = (repr(case["data"]), case.get("dedup", True), case.get("est", "linear"))
+    key = (repr(case["data"]), case.get("dedup", True), case.get("est", "linear"), case.get("cap"))
     if key not in _REF:
-        r = pipeline({"data": case["data"], "dedup": case.get("dedup", True), "est": case.get("est", "linear"), "config": {}}, work)
+        r = pipeline({"data": case["data"], "dedup": case.get("dedup", True), "est": case.get("est", "linear"), "config": {},
+                      "cap": case.get("cap")}, work)
         # harness sanity: a degenerate reference (untrained model, NaN scores from a fold without decoys) would make
         # the differential oracle vacuous
         if not r["trained"] or any(not np.all(np.isfinite(s)) for s in r["scores"]):
@@ -405,7 +407,28 @@ def e2_plan(ctx, kind, bounds):
         shutil.rmtree(work, ignore_errors=True)
 
 
+CAPS = {}  # per dataset: a binding training cap under which the reference execution still trains every fold (see run)
+
+
+def _find_caps():
+    for data in ("A", "B"):
+        n = n_rows(data)
+        work = worker_scratch().sub()
+        try:
+            for cap in range(n // 3, n):
+                try:
+                    r = pipeline({"data": data, "dedup": True, "config": {}, "cap": cap}, work)
+                except (RuntimeError, ValueError):
+                    continue
+                if r["trained"] and all(np.all(np.isfinite(s)) for s in r["scores"]):
+                    CAPS[data] = cap
+                    break
+        finally:
+            shutil.rmtree(work, ignore_errors=True)
+
+
 def make_cases(ctx):
+    _find_caps()
     cases = []
     maxdev = 2 if ctx.quick else 3
     for data in ("A", "B", "C"):
@@ -450,6 +473,20 @@ def make_cases(ctx):
         for c in ("CONFIDENCE_CHUNK_SIZE", "CHUNK_SIZE_READ_ALL_DATA"):
             for v in (1, 3, n):
                 cases.append({"data": data, "dedup": True, "est": "proba", "config": {c: v}})
+    # training on a capped random subset (subset_max_train binding): the subset is drawn from the seeded generator and
+    # must not depend on how the file is streamed
+    for data in ("A", "B"):
+        n = n_rows(data)
+        cap = CAPS.get(data)
+        if cap is None:
+            continue
+        for v in range(1, n + 2):
+            cases.append({"data": data, "dedup": True, "cap": cap, "config": {"CHUNK_SIZE_READ_ALL_DATA": v}})
+        for c in BREW_CONSTS:
+            for v in (1, 3, n):
+                cases.append({"data": data, "dedup": True, "cap": cap, "config": {c: v}})
+        cases.append({"data": data, "dedup": True, "cap": cap, "config": {"workers": 3, "CHUNK_SIZE_READ_ALL_DATA": 3}})
+        cases.append({"data": data, "dedup": True, "cap": cap, "config": {"fmt": "parquet", "rg": 3, "CHUNK_SIZE_READ_ALL_DATA": 5}})
     # joint run of two files
     nj = n_rows("A") + n_rows("B")
     for c in BREW_CONSTS:
